@@ -195,6 +195,18 @@ fn host() -> impl Strategy<Value = String> {
         1 => "[A-Za-z][A-Za-z0-9]{0,8}(\\.[A-Za-z]{2,5}){0,2}",
         3 => (1u8..=254, 0u8..=255, 0u8..=255, 1u8..=254).prop_map(|(a, b, c, d)| format!("{a}.{b}.{c}.{d}")),
         1 => Just("localhost".to_string()),
+        // long DNS names: labels of up to 63 bytes, up to 253 bytes in all (cloud load balancers, reverse names)
+        2 => proptest::collection::vec("[a-z]([a-z0-9-]{0,61}[a-z0-9])?", 1..5).prop_map(|l| {
+            let mut h = l.join(".");
+            while h.len() > 253 {
+                let cut = h.rfind('.').unwrap_or(253.min(h.len() - 1));
+                h.truncate(cut.min(253));
+                while h.ends_with('-') || h.ends_with('.') {
+                    h.pop();
+                }
+            }
+            h
+        }),
         1 => Just("[::1]".to_string()),
         1 => Just("[2001:db8::1]".to_string()),
         1 => Just("0.0.0.0".to_string()),
